@@ -138,6 +138,7 @@ def explore_split(program: Program, tier: str) -> SplitFacts:
     facts.events_total, facts.abort_paths = ex.events_total, ex.abort_paths
     facts.counters = counters
     facts.counter_bad = bad
+    facts.truncated = bool(getattr(ex, "truncated", False))
     facts.from_cache = False
     seen = set()
     for m in ex.mismatches:
@@ -379,7 +380,7 @@ def report_product(rep, program: Program, rule: str, classes, what: str, after_a
         rep.samples.append({"rule": rule, "mark_sequence": s_, "status": "code events == reference events"})
     if facts.unsupported:
         raise AnalysisError(f"{rule}: the abstract interpreter met a construct it cannot model inside the splitter: {facts.unsupported[0]}")
-    if facts.states < 100 or facts.completed < 20:
+    if (facts.states < 100 or facts.completed < 20) and not facts.mismatches:
         raise AnalysisError(f"{rule}: product exploration collapsed ({facts.states} states, {facts.completed} completed runs); "
                             f"expected several hundred states")
     if getattr(facts, "counter_bad", None):
@@ -387,11 +388,14 @@ def report_product(rep, program: Program, rule: str, classes, what: str, after_a
         raise AnalysisError(f"{rule}: depth counter {c[0]} is used outside +-1 / comparison with a constant at {c[1]} ({c[2]}); "
                             f"the depth bound of the exploration is not justified")
     mine = []
+    # when the exploration was cut short by mismatches (whoever owns them), the rest of the state space was not compared:
+    # this property cannot be discharged either, so every mismatch is reported here as well
+    blocked = bool(facts.mismatches) and (getattr(facts, "truncated", False) or facts.completed < 20)
     for m in facts.mismatches:
         own = m["cls"] in classes and (after_abort is None or m["after_abort"] == after_abort)
         if include_all_after_abort and m["after_abort"]:
             own = True
-        if m["cls"] == "protocol":
+        if m["cls"] == "protocol" or blocked:
             own = True
         if own:
             mine.append(m)
